@@ -9,7 +9,7 @@ from vmc.core import elemsweep as S
 from vmc.core.report import Report
 
 PROP = "C08"
-SCALARS = [-1, 0, 2, 3, Fraction(1, 2), "", "ab"]
+SCALARS = [-1, 0, 2, 3, Fraction(1, 2), "", "ab", "7"]   # "7": a string of odd length that is also a number
 RANDOM = {"ƈ", "ṁ", "ÞB", "℅"}
 # documented `vectorise: true` but the documented overload takes the list whole ("any" = a list function)
 LIST_FUNCTIONS = {
